@@ -193,7 +193,7 @@ pub fn compact(sc: &Scenario) -> Scenario {
                     used[*u] = true
                 }
             }
-            Op::InScript { utxo, wit, .. } | Op::InScriptThenRegular { utxo, wit } => {
+            Op::InScript { utxo, wit, .. } | Op::InScriptThenRegular { utxo, wit, .. } => {
                 if *utxo < used.len() {
                     used[*utxo] = true
                 }
@@ -237,7 +237,7 @@ pub fn compact(sc: &Scenario) -> Scenario {
     for op in c.ops.iter_mut() {
         match op {
             Op::InUtxo(u) | Op::InLegacy(u) | Op::InDirect(u) | Op::CollUtxo(u) | Op::RefIn(u, _) => m(u),
-            Op::InScript { utxo, wit, .. } | Op::InScriptThenRegular { utxo, wit } => {
+            Op::InScript { utxo, wit, .. } | Op::InScriptThenRegular { utxo, wit, .. } => {
                 m(utxo);
                 map_wit(wit, &m);
             }
